@@ -1,13 +1,210 @@
-import Hms
-import Driver.Decode
-/-! Driver commands of the "Analyzer" area. `dispatchAnalyzer cmd payload` answers `some line` for the
-commands it owns and `none` otherwise. -/
+import Hms.Sexp
+import Hms.Check.Check
+/-! Driver commands of the "Analyzer" area (C03). `dispatchAnalyzer cmd payload` answers
+`some line` for the commands it owns and `none` otherwise.
+
+* `check [nomain] <parser-AST sexp of hv panalyze>` →
+  `V=<sorted message classes of the error-level diagnostics or -> R=<sorted rule classes or -> W=<n> T=(<types>)`
+  or `UNSUPPORTED x<hex reason>` when the program uses a construct outside the model. -/
 namespace Driver
-open Hms
+open Hms Hms.Check
+
+namespace PDecode
+
+abbrev D := Except String
+
+def unsupported {α} (what : String) : D α := .error s!"unsupported: {what}"
+def bad {α} (what : String) (s : Sexp) : D α := .error s!"decode {what}: {(toString s).take 100}"
+
+def str (s : Sexp) : D String :=
+  match s.asStr? with
+  | some x => .ok x
+  | none => bad "string" s
+
+partial def pty (s : Sexp) : D PTy :=
+  match s with
+  | .list [.atom "name", n] => do pure (.name (← str n))
+  | .list [.atom "sing", _] => unsupported "singleton type"
+  | .list [.atom "opt", t] => do pure (.opt (← pty t))
+  | .list [.atom "list", t] => do pure (.list (← pty t))
+  | .atom "anyobj" => pure .anyobj
+  | .list (.atom "obj" :: fs) => do
+    let fields ← fs.mapM fun f => match f with
+      | .list [n, t, .atom "false"] => do pure (← str n, ← pty t)
+      | .list [_, _, .atom "true"] => unsupported "type field annotation"
+      | _ => bad "type field" f
+    pure (.obj fields)
+  | .list [.atom "fn", .list ps, r] => do
+    let params ← ps.mapM fun p => match p with
+      | .list [n, t] => do pure (← str n, ← pty t)
+      | _ => bad "fn type param" p
+    pure (.fn params (← pty r))
+  | _ => bad "type" s
+
+def ptyOpt (s : Sexp) : D (Option PTy) :=
+  match s with
+  | .atom "none" => pure none
+  | t => some <$> pty t
+
+def params (ps : List Sexp) : D (List (String × PTy)) :=
+  ps.mapM fun p => match p with
+    | .list [n, t] => do pure (← str n, ← pty t)
+    | _ => bad "param" p
+
+def infixOp (s : String) : D InfixOp :=
+  match s with
+  | "+" => pure .add | "-" => pure .sub | "*" => pure .mul | "/" => pure .div | "%" => pure .rem
+  | "**" => pure .pow | "<<" => pure .shl | ">>" => pure .shr | "|" => pure .bitOr | "&" => pure .bitAnd
+  | "^" => pure .bitXor | "||" => pure .or | "&&" => pure .and | "==" => pure .eq | "!=" => pure .ne
+  | "<" => pure .lt | "<=" => pure .le | ">" => pure .gt | ">=" => pure .ge
+  | _ => .error s!"decode infix operator {s}"
+
+def assignOp (s : String) : D (Option InfixOp) :=
+  match s with
+  | "=" => pure none
+  | "+=" => pure (some .add) | "-=" => pure (some .sub) | "*=" => pure (some .mul) | "/=" => pure (some .div)
+  | "%=" => pure (some .rem) | "**=" => pure (some .pow) | "<<=" => pure (some .shl) | ">>=" => pure (some .shr)
+  | "|=" => pure (some .bitOr) | "&=" => pure (some .bitAnd) | "^=" => pure (some .bitXor)
+  | _ => .error s!"decode assign operator {s}"
+
+mutual
+partial def expr (s : Sexp) : D PExpr :=
+  match s with
+  | .list [.atom "int", v] =>
+    match v.asInt? with
+    | some i => pure (.int i)
+    | none => bad "int" v
+  | .list [.atom "float", v] =>
+    match v.asNat? with
+    | some n => pure (.float n)
+    | none => bad "float" v
+  | .list [.atom "bool", v] =>
+    match v.asBool? with
+    | some b => pure (.bool b)
+    | none => bad "bool" v
+  | .list [.atom "str", v] => do pure (.str (← str v))
+  | .list [.atom "ident", n, .atom "false"] => do pure (.ident (← str n))
+  | .list [.atom "ident", _, .atom "true"] => unsupported "singleton reference"
+  | .list [.atom "null"] => pure .null
+  | .list [.atom "none"] => pure .none
+  | .list [.atom "range", a, b, incl] => do pure (.range (← expr a) (← expr b) (incl.asBool?.getD false))
+  | .list (.atom "list" :: xs) => do pure (.list (PExprs.ofList (← xs.mapM expr)))
+  | .list [.atom "anyobj"] => pure .anyobj
+  | .list (.atom "obj" :: fs) => do
+    let fields ← fs.mapM fun f => match f with
+      | .list [k, e] => do pure (← str k, ← expr e)
+      | _ => bad "object field" f
+    pure (.obj (PFields.ofList fields))
+  | .list [.atom "lambda", .list ps, r, b] => do pure (.lambda (← params ps) (← pty r) (← block b))
+  | .list [.atom "grp", e] => do pure (.grp (← expr e))
+  | .list [.atom "pre", .atom op, e] => do
+    let op ← match op with
+      | "neg" => pure PrefixOp.neg | "not" => pure PrefixOp.not | "some" => pure PrefixOp.some
+      | _ => .error s!"decode prefix operator {op}"
+    pure (.pre op (← expr e))
+  | .list [.atom "infix", op, l, r] => do pure (.infix (← infixOp (← str op)) (← expr l) (← expr r))
+  | .list [.atom "assign", op, l, r] => do pure (.assign (← assignOp (← str op)) (← expr l) (← expr r))
+  | .list [.atom "call", b, .list as, .atom "false"] => do pure (.call (← expr b) (PExprs.ofList (← as.mapM expr)))
+  | .list [.atom "call", _, _, .atom "true"] => unsupported "spawn"
+  | .list [.atom "index", b, i] => do pure (.index (← expr b) (← expr i))
+  | .list [.atom "member", b, n, op] => do
+    let op ← match (← str op) with
+      | "." => pure MemberOp.dot | "->" => pure MemberOp.arrow | "~>" => pure MemberOp.tildeArrow
+      | o => .error s!"decode member operator {o}"
+    pure (.member (← expr b) (← str n) op)
+  | .list [.atom "cast", e, t] => do pure (.cast (← expr e) (← pty t))
+  | .list [.atom "blk", b] => do pure (.blk (← block b))
+  | .list [.atom "if", c, t, .atom "none"] => do pure (.ifThen (← expr c) (← block t))
+  | .list [.atom "if", c, t, e] => do pure (.ifElse (← expr c) (← block t) (← block e))
+  | .list [.atom "match", c, .list arms] => do
+    let arms ← arms.mapM fun a => match a with
+      | .list [.list lits, act] => do
+        let lits ← lits.mapM fun l => match l with
+          | .atom "default" => pure none
+          | e => some <$> expr e
+        if lits.length > 1 && lits.any Option.isNone then unsupported "default case next to literals"
+        pure (PLits.ofList lits, ← expr act)
+      | _ => bad "match arm" a
+    pure (.matchE (← expr c) (PArms.ofList arms))
+  | .list [.atom "try", t, n, c] => do pure (.tryE (← block t) (← str n) (← block c))
+  | .list [.atom "unsupported", w] => do unsupported (← str w)
+  | _ => bad "expr" s
+partial def block (s : Sexp) : D PBlock :=
+  match s with
+  | .list [.atom "block", .list ss, .atom "none"] => do pure (.mkNoTail (PStmts.ofList (← ss.mapM stmt)))
+  | .list [.atom "block", .list ss, e] => do pure (.mk (PStmts.ofList (← ss.mapM stmt)) (← expr e))
+  | _ => bad "block" s
+partial def stmt (s : Sexp) : D PStmt :=
+  match s with
+  | .list [.atom "let", n, t, e, _] => do pure (.letS (← str n) (← ptyOpt t) (← expr e))
+  | .list [.atom "return", .atom "none"] => pure .retNone
+  | .list [.atom "return", e] => do pure (.ret (← expr e))
+  | .list [.atom "break"] => pure .brk
+  | .list [.atom "continue"] => pure .cont
+  | .list [.atom "loop", b] => do pure (.loopS (← block b))
+  | .list [.atom "while", c, b] => do pure (.whileS (← expr c) (← block b))
+  | .list [.atom "for", n, it, b] => do pure (.forS (← str n) (← expr it) (← block b))
+  | .list [.atom "expr", e] => do pure (.exprS (← expr e))
+  | .list (.atom "typedef" :: _) => unsupported "type definition"
+  | .list (.atom "trigger" :: _) => unsupported "trigger statement"
+  | _ => bad "stmt" s
+end
+
+def fn (s : Sexp) : D PFn :=
+  match s with
+  | .list [.atom "fn", n, .list ps, r, m, .atom "false", b] => do
+    pure ⟨← str n, ← params ps, ← pty r, m.asNat?.getD 0, ← block b⟩
+  | .list [.atom "fn", _, _, _, _, .atom "true", _] => unsupported "function annotation"
+  | _ => bad "fn" s
+
+def global (s : Sexp) : D PGlobal :=
+  match s with
+  | .list [.atom "let", n, t, e, _] => do pure ⟨← str n, ← ptyOpt t, ← expr e⟩
+  | _ => bad "global" s
+
+def prog (s : Sexp) : D PProg :=
+  match s with
+  | .list [.atom "prog", .list imports, .list types, .list sings, .list impls, .list globals, .list fns] => do
+    if !imports.isEmpty then unsupported "import"
+    if !types.isEmpty then unsupported "type definition"
+    if !sings.isEmpty then unsupported "singleton"
+    if !impls.isEmpty then unsupported "impl block"
+    pure ⟨← globals.mapM global, ← fns.mapM fn⟩
+  | _ => bad "prog" s
+
+end PDecode
+
+partial def tySexp : Ty → String
+  | .unknown => "unknown" | .never => "never" | .any => "any" | .null => "null" | .int => "int"
+  | .float => "float" | .bool => "bool" | .str => "str" | .range => "range" | .anyobj => "anyobj"
+  | .list t => s!"(list {tySexp t})"
+  | .opt t => s!"(opt {tySexp t})"
+  | .obj fs => "(obj" ++ String.join (fs.map fun (n, t) => s!" ({Sexp.hexOfString n} {tySexp t})") ++ ")"
+  | .fn ps r => s!"(fn ({" ".intercalate (ps.map fun (_, t) => tySexp t)}) {tySexp r})"
+  | .fnvar ps rest r => s!"(fnvar ({" ".intercalate (ps.map tySexp)}) {tySexp rest} {tySexp r})"
+
+def sortStrings (xs : List String) : List String := (xs.toArray.qsort (· < ·)).toList
+
+def joinOrDash (xs : List String) : String := if xs.isEmpty then "-" else ",".intercalate xs
+
+/-- `check [nomain] <sexp>` -/
+def cmdCheck (payload : String) : String :=
+  let (needMain, body) :=
+    if payload.startsWith "nomain " then (false, (payload.drop 7).toString) else (true, payload)
+  match Sexp.parse body with
+  | none => "BAD-INPUT"
+  | some sx =>
+    match PDecode.prog sx with
+    | .error e => if e.startsWith "unsupported" then s!"UNSUPPORTED {Sexp.hexOfString e}" else s!"DECODE-ERROR {Sexp.hexOfString e}"
+    | .ok p =>
+      let r := checkProg needMain p
+      let v := sortStrings (r.errs.map fun e => e.msg.name)
+      let rules := sortStrings (r.errs.map fun e => e.rule.name)
+      s!"V={joinOrDash v} R={joinOrDash rules} W={(warnings p).length} T=({" ".intercalate (r.tys.map tySexp)})"
 
 def dispatchAnalyzer (cmd : String) (payload : String) : Option String :=
-  let _ := payload
   match cmd with
+  | "check" => some (cmdCheck payload)
   | _ => none
 
 end Driver
